@@ -161,6 +161,10 @@ func pacSigTypeFor(et int32) uint32 {
 // mintAPReq builds the request with the real library's types and crypto. now is the clock the request
 // is minted against. m is used to sign the PAC (independent signer).
 func mintAPReq(m *Model, rng *RNG, c apCase, now time.Time) (messages.APReq, []byte, error) {
+	return mintAPReqKey(m, rng, c, now)
+}
+
+func mintAPReqKey(m *Model, rng *RNG, c apCase, now time.Time) (messages.APReq, []byte, error) {
 	kt, _ := serviceKeytab()
 	var ap messages.APReq
 	sessionKey, err := types.GenerateEncryptionKey(mustEtype(c.et))
